@@ -2155,11 +2155,9 @@ def oracle(case, res):
             if fin is None:
                 return f"histogram {o} is missing at the end"
             got = [q(v) if is_num(v) else None for v in flat_nested(fin["bins"])]
-            if h.clean or True:
-                if got != h.bins or not is_num(fin["nout"]) or q(fin["nout"]) != h.nout:
-                    if h.clean:
-                        return (f"histogram {o} after {jdump([x['k'] + ':' + x.get('o', x.get('x', '')) for x in case['steps']])}: "
-                                f"bins {fin['bins']}, n_out_of_range {fin['nout']}; expected {[str(v) for v in h.bins]}, {h.nout}")
+            if got != h.bins or not is_num(fin["nout"]) or q(fin["nout"]) != h.nout:
+                return (f"histogram {o} after {jdump([x['k'] + ':' + x.get('o', x.get('x', '')) for x in case['steps']])}: "
+                        f"bins {fin['bins']}, n_out_of_range {fin['nout']}; expected {[str(v) for v in h.bins]}, {h.nout}")
         return None
 
     if op in ("csv_flow", "h2g_flow"):
